@@ -141,7 +141,7 @@ def check_property(pid, tier, seed, args, t0):
 
     def rkey(func, label):
         # one replay per function, except where a template orders its cases by the obligation
-        for hint in ('removed-first', 'restore_all', 'cache-file-written'):
+        for hint in ('removed-first', 'restore_all', 'cache-file-written', 'json-value-is'):
             if hint in label:
                 return (func, hint)
         return func
